@@ -21,13 +21,13 @@ pub fn plan03(tier: Tier) -> Plan {
         checks.push(add_check::<Skewness>("C03", a, d, filter03, false));
         checks.push(add_check::<Kurtosis>("C03", a, d, filter03, false));
     }
-    let (n, k) = if q { (20_000u64, 3usize) } else { (100_000, 4) };
+    let (n, k) = if q { (70_000u64, 3usize) } else { (1_000_000, 3) };
     for a in ["small", "dec", "off9", "tail", "tiny"] {
         checks.push(super::longrun::lasso::<Skewness>("C03", a, k, 3, n, filter03, false));
         checks.push(super::longrun::lasso::<Kurtosis>("C03", a, k, 3, n, filter03, false));
     }
     Plan {
-        rule: "long streams as a finite family (every word of length <= 3 over 3-/4-letter sub-alphabets repeated to n = 20 000 / 1e5, judged at n = 1..16, around powers of two and at the end); AND every add-sequence over small, dec, tail, off9, negoff, ap and three two-point alphabets up to the depth bound for Skewness and Kurtosis; every prefix with n >= 1 judged (skewness, kurtosis, mean, variances, error_mean) against exact rational central moments under the section-4 envelopes; non-trivial = multiset inside the envelope domain".into(),
+        rule: "long streams as a finite family (every word of length <= 3 over 3-/4-letter sub-alphabets repeated to n = 70 000 / 1e6, judged at n = 1..16, around powers of two and at the end); AND every add-sequence over small, dec, tail, off9, negoff, ap and three two-point alphabets up to the depth bound for Skewness and Kurtosis; every prefix with n >= 1 judged (skewness, kurtosis, mean, variances, error_mean) against exact rational central moments under the section-4 envelopes; non-trivial = multiset inside the envelope domain".into(),
         assumptions: common_assumptions(),
         checks,
     }
@@ -53,7 +53,7 @@ pub fn plan04(tier: Tier) -> Plan {
     fam04::<M6>(&mut checks, q);
     fam04::<M8>(&mut checks, q);
     fam04::<M10>(&mut checks, q);
-    let (n, k) = if q { (20_000u64, 3usize) } else { (100_000, 4) };
+    let (n, k) = if q { (70_000u64, 3usize) } else { (1_000_000, 3) };
     for a in ["small", "dec", "off9", "tail"] {
         checks.push(super::longrun::lasso::<Moments4>("C04", a, k, 3, n, filter04, true));
         checks.push(super::longrun::lasso::<M6>("C04", a, k, 3, n, filter04, true));
